@@ -12,22 +12,24 @@ From Coq Require Import List Arith Lia ZArith Bool QArith Qcanon.
 Import ListNotations.
 From PGV Require Import Blocks Sums GridSteps Density DensityQc.
 Close Scope Q_scope.
+Close Scope Qc_scope.
+Open Scope nat_scope.
 
 (** rho_formula: when every entry read by the loops exists, get_perturbed_rho does not raise and cell (i,j,k) holds sum_l q[l]*(grid[i,j,k,l] - feq[i,l]) (sum in loop order), for every shape *)
 Theorem c16_rho_formula :
-  forall (F : Type) (f0 : F) (fadd fmul fsub : F -> F -> F) (n m p : nat) (feq : list (list F)) (grid : list (list (list (list F)))) (q : list F) (qf : nat -> F) (gf : nat -> nat -> nat -> nat -> F) (ef : nat -> nat -> F), (forall l : nat, (l < length q)%nat -> nth_error q l = Some (qf l)) -> (forall i j k l : nat, (i < n)%nat -> (j < m)%nat -> (k < p)%nat -> (l < length q)%nat -> dn_at4 F grid i j k l = Some (gf i j k l)) -> (forall i l : nat, (i < n)%nat -> (l < length q)%nat -> dn_at2 F feq i l = Some (ef i l)) -> exists rho : list (list (list F)), dn_get_perturbed_rho F f0 fadd fmul fsub n m p feq grid q = Some rho /\ (forall i j k : nat, (i < n)%nat -> (j < m)%nat -> (k < p)%nat -> dn_at3 F rho i j k = Some (dn_rho_fn F f0 fadd fmul fsub (length q) qf (gf i j k) (ef i))).
+  forall (F : Type) (f0 : F) (fadd fmul fsub : F -> F -> F) (n m p : nat) (feq : list (list F)) (grid : list (list (list (list F)))) (q : list F) (qf : nat -> F) (gf : nat -> nat -> nat -> nat -> F) (ef : nat -> nat -> F), (forall l : nat, l < length q -> nth_error q l = Some (qf l)) -> (forall i j k l : nat, i < n -> j < m -> k < p -> l < length q -> dn_at4 F grid i j k l = Some (gf i j k l)) -> (forall i l : nat, i < n -> l < length q -> dn_at2 F feq i l = Some (ef i l)) -> exists rho : list (list (list F)), dn_get_perturbed_rho F f0 fadd fmul fsub n m p feq grid q = Some rho /\ (forall i j k : nat, i < n -> j < m -> k < p -> dn_at3 F rho i j k = Some (dn_rho_fn F f0 fadd fmul fsub (length q) qf (gf i j k) (ef i))).
 Proof. exact dn_rho_formula. Qed.
 Print Assumptions c16_rho_formula.
 
 (** the same for get_rho: sum_l q[l]*grid[i,j,k,l] *)
 Theorem c16_rho0_formula :
-  forall (F : Type) (f0 : F) (fadd fmul : F -> F -> F) (n m p : nat) (grid : list (list (list (list F)))) (q : list F) (qf : nat -> F) (gf : nat -> nat -> nat -> nat -> F), (forall l : nat, (l < length q)%nat -> nth_error q l = Some (qf l)) -> (forall i j k l : nat, (i < n)%nat -> (j < m)%nat -> (k < p)%nat -> (l < length q)%nat -> dn_at4 F grid i j k l = Some (gf i j k l)) -> exists rho : list (list (list F)), dn_get_rho F f0 fadd fmul n m p grid q = Some rho /\ (forall i j k : nat, (i < n)%nat -> (j < m)%nat -> (k < p)%nat -> dn_at3 F rho i j k = Some (dn_rho0_fn F f0 fadd fmul (length q) qf (gf i j k))).
+  forall (F : Type) (f0 : F) (fadd fmul : F -> F -> F) (n m p : nat) (grid : list (list (list (list F)))) (q : list F) (qf : nat -> F) (gf : nat -> nat -> nat -> nat -> F), (forall l : nat, l < length q -> nth_error q l = Some (qf l)) -> (forall i j k l : nat, i < n -> j < m -> k < p -> l < length q -> dn_at4 F grid i j k l = Some (gf i j k l)) -> exists rho : list (list (list F)), dn_get_rho F f0 fadd fmul n m p grid q = Some rho /\ (forall i j k : nat, i < n -> j < m -> k < p -> dn_at3 F rho i j k = Some (dn_rho0_fn F f0 fadd fmul (length q) qf (gf i j k))).
 Proof. exact dn_rho0_formula. Qed.
 Print Assumptions c16_rho0_formula.
 
 (** an entry that is read but missing is an IndexError (None), never a default value *)
 Theorem c16_rho_index_error :
-  forall (F : Type) (f0 : F) (fadd fmul fsub : F -> F -> F) (n m p : nat) (feq : list (list F)) (grid : list (list (list (list F)))) (q : list F) (i j k l : nat), (i < n)%nat -> (j < m)%nat -> (k < p)%nat -> (l < length q)%nat -> dn_at4 F grid i j k l = None \/ dn_at2 F feq i l = None -> dn_get_perturbed_rho F f0 fadd fmul fsub n m p feq grid q = None.
+  forall (F : Type) (f0 : F) (fadd fmul fsub : F -> F -> F) (n m p : nat) (feq : list (list F)) (grid : list (list (list (list F)))) (q : list F) (i j k l : nat), i < n -> j < m -> k < p -> l < length q -> dn_at4 F grid i j k l = None \/ dn_at2 F feq i l = None -> dn_get_perturbed_rho F f0 fadd fmul fsub n m p feq grid q = None.
 Proof. exact dn_rho_index_error. Qed.
 Print Assumptions c16_rho_index_error.
 
@@ -45,31 +47,31 @@ Print Assumptions c16_rho_perturbed_is_difference.
 
 (** rho_equilibrium_zero: distribution equal to the equilibrium rows => perturbed density 0 *)
 Theorem c16_rho_equilibrium_zero :
-  forall (F : Type) (f0 f1 : F) (fadd fmul fsub fdiv : F -> F -> F) (fopp finv : F -> F), field_theory f0 f1 fadd fmul fsub fopp fdiv finv eq -> forall (nc : nat) (qf g e : nat -> F), (forall l : nat, (l < nc)%nat -> g l = e l) -> dn_rho_fn F f0 fadd fmul fsub nc qf g e = f0.
+  forall (F : Type) (f0 f1 : F) (fadd fmul fsub fdiv : F -> F -> F) (fopp finv : F -> F), field_theory f0 f1 fadd fmul fsub fopp fdiv finv eq -> forall (nc : nat) (qf g e : nat -> F), (forall l : nat, l < nc -> g l = e l) -> dn_rho_fn F f0 fadd fmul fsub nc qf g e = f0.
 Proof. exact dn_rho_equilibrium_zero. Qed.
 Print Assumptions c16_rho_equilibrium_zero.
 
 (** rho_global_r: on the rank at coordinate a of pr along r, self._fEq[rIndices] pairs local radius i with row bstart+i of the whole-grid table (the GlobalTab lookup of GridSteps.op_density), for every extent, process count, rank *)
 Theorem c16_rho_global_r :
-  forall (F : Type) (fEq : list (list F)) (nr pr a i : nat), (0 < pr)%nat -> (a < pr)%nat -> length fEq = nr -> (i < blen nr pr a)%nat -> exists rows : list (list F), dn_feq_rows F fEq (bstart nr pr a) (blen nr pr a) = Some rows /\ nth i rows [] = nth (bstart nr pr a + i) fEq [] /\ nth i rows [] = resolve (list F) [] GlobalTab fEq (bstart nr pr a) (blen nr pr a) i /\ In GlobalTab (axis0_lookups op_density).
+  forall (F : Type) (fEq : list (list F)) (nr pr a i : nat), 0 < pr -> a < pr -> length fEq = nr -> i < blen nr pr a -> exists rows : list (list F), dn_feq_rows F fEq (bstart nr pr a) (blen nr pr a) = Some rows /\ nth i rows [] = nth (bstart nr pr a + i) fEq [] /\ nth i rows [] = resolve (list F) [] GlobalTab fEq (bstart nr pr a) (blen nr pr a) i /\ In GlobalTab (axis0_lookups op_density).
 Proof. exact dn_rho_global_r. Qed.
 Print Assumptions c16_rho_global_r.
 
 (** hence the density assembled over the blocks of any process grid (r and z distributed) is the serial density *)
 Theorem c16_rho_decomposition_free :
-  forall (F : Type) (f0 : F) (fadd fmul fsub : F -> F -> F) (nc : nat) (qf : nat -> F) (nr nz pr pz : nat) (fld : nat -> nat -> nat -> F) (feq : nat -> nat -> F) (rowloc : nat -> nat -> nat -> nat -> nat -> F), (0 < pr)%nat -> (0 < pz)%nat -> (forall a b i j : nat, (a < pr)%nat -> (b < pz)%nat -> (i < blen nr pr a)%nat -> (j < blen nz pz b)%nat -> rowloc a b i j = feq (bstart nr pr a + i)%nat) -> forall R Z : nat, (R < nr)%nat -> (Z < nz)%nat -> dn_assembled_rho F f0 fadd fmul fsub nc qf nr nz pr pz fld rowloc R Z = dn_rho_fn F f0 fadd fmul fsub nc qf (fld R Z) (feq R).
+  forall (F : Type) (f0 : F) (fadd fmul fsub : F -> F -> F) (nc : nat) (qf : nat -> F) (nr nz pr pz : nat) (fld : nat -> nat -> nat -> F) (feq : nat -> nat -> F) (rowloc : nat -> nat -> nat -> nat -> nat -> F), 0 < pr -> 0 < pz -> (forall a b i j : nat, a < pr -> b < pz -> i < blen nr pr a -> j < blen nz pz b -> rowloc a b i j = feq (bstart nr pr a + i)) -> forall R Z : nat, R < nr -> Z < nz -> dn_assembled_rho F f0 fadd fmul fsub nc qf nr nz pr pz fld rowloc R Z = dn_rho_fn F f0 fadd fmul fsub nc qf (fld R Z) (feq R).
 Proof. exact dn_rho_decomposition_free. Qed.
 Print Assumptions c16_rho_decomposition_free.
 
 (** rho_exact: if C^T q = I (transposed collocation solve) and the nodal values along v are those of the spline with coefficients c (C c = g) then the density is sum_j I_j c_j - the integral of the interpolant when I_j are the basis integrals (hypothesis, C09) *)
 Theorem c16_rho_exact :
-  forall (F : Type) (f0 f1 : F) (fadd fmul fsub fdiv : F -> F -> F) (fopp finv : F -> F), field_theory f0 f1 fadd fmul fsub fopp fdiv finv eq -> forall (nc : nat) (C : nat -> nat -> F) (qf g c I : nat -> F), (forall j : nat, (j < nc)%nat -> sumn F f0 fadd nc (fun i : nat => fmul (C i j) (qf i)) = I j) -> (forall i : nat, (i < nc)%nat -> sumn F f0 fadd nc (fun j : nat => fmul (C i j) (c j)) = g i) -> dn_rho0_fn F f0 fadd fmul nc qf g = sumn F f0 fadd nc (fun j : nat => fmul (I j) (c j)).
+  forall (F : Type) (f0 f1 : F) (fadd fmul fsub fdiv : F -> F -> F) (fopp finv : F -> F), field_theory f0 f1 fadd fmul fsub fopp fdiv finv eq -> forall (nc : nat) (C : nat -> nat -> F) (qf g c I : nat -> F), (forall j : nat, j < nc -> sumn F f0 fadd nc (fun i : nat => fmul (C i j) (qf i)) = I j) -> (forall i : nat, i < nc -> sumn F f0 fadd nc (fun j : nat => fmul (C i j) (c j)) = g i) -> dn_rho0_fn F f0 fadd fmul nc qf g = sumn F f0 fadd nc (fun j : nat => fmul (I j) (c j)).
 Proof. exact dn_rho_exact. Qed.
 Print Assumptions c16_rho_exact.
 
 (** and the perturbed density is the integral of the interpolant of f - f_eq *)
 Theorem c16_rho_perturbed_exact :
-  forall (F : Type) (f0 f1 : F) (fadd fmul fsub fdiv : F -> F -> F) (fopp finv : F -> F), field_theory f0 f1 fadd fmul fsub fopp fdiv finv eq -> forall (nc : nat) (C : nat -> nat -> F) (qf g e c ce I : nat -> F), (forall j : nat, (j < nc)%nat -> sumn F f0 fadd nc (fun i : nat => fmul (C i j) (qf i)) = I j) -> (forall i : nat, (i < nc)%nat -> sumn F f0 fadd nc (fun j : nat => fmul (C i j) (c j)) = g i) -> (forall i : nat, (i < nc)%nat -> sumn F f0 fadd nc (fun j : nat => fmul (C i j) (ce j)) = e i) -> dn_rho_fn F f0 fadd fmul fsub nc qf g e = sumn F f0 fadd nc (fun j : nat => fmul (I j) (fsub (c j) (ce j))).
+  forall (F : Type) (f0 f1 : F) (fadd fmul fsub fdiv : F -> F -> F) (fopp finv : F -> F), field_theory f0 f1 fadd fmul fsub fopp fdiv finv eq -> forall (nc : nat) (C : nat -> nat -> F) (qf g e c ce I : nat -> F), (forall j : nat, j < nc -> sumn F f0 fadd nc (fun i : nat => fmul (C i j) (qf i)) = I j) -> (forall i : nat, i < nc -> sumn F f0 fadd nc (fun j : nat => fmul (C i j) (c j)) = g i) -> (forall i : nat, i < nc -> sumn F f0 fadd nc (fun j : nat => fmul (C i j) (ce j)) = e i) -> dn_rho_fn F f0 fadd fmul fsub nc qf g e = sumn F f0 fadd nc (fun j : nat => fmul (I j) (fsub (c j) (ce j))).
 Proof. exact dn_rho_perturbed_exact. Qed.
 Print Assumptions c16_rho_perturbed_exact.
 
